@@ -352,6 +352,11 @@ def run(rep: Report, tier: str) -> None:
         _n += 1
         rep.instance("R01.6", f"ds-ds/{_lab}", nontrivial=True, sample={"interpreter": _a[1].summary() if _a[0] == "ok" else _a, "structure_visitor": _b[1].summary() if _b[0] == "ok" else _b})
         if _a[0] != "ok":
+            if sorted(_lm) == sorted(_rm):
+                _fv = P.func("vtlengine.Operators.Binary.dataset_validation")
+                rep.add(Finding("R01.6", f"R01.6/ds-ds-accept/{_lab}", _fv.module.rel, _fv.node.lineno, _fv.qualname,
+                                f"DS_1(ids {_li}, measures {_lm}) op DS_2(ids {_ri}, measures {_rm}) is rejected by semantic analysis ({_a[1]}): measures are matched by NAME - "
+                                f"operands that declare the same measures in another order are compatible"))
             continue  # rejected by semantic analysis: no intermediate structure is needed
         if _b[0] != "ok" or _a[1].summary() != _b[1].summary():
             _f = P.func(_sm.SV + "._build_ds_ds_binop_structure")
